@@ -1,6 +1,6 @@
 import Capella.Lemmas.Svg
 import Capella.Lemmas.Wrap
-import Capella.Gen.StylesAux
+import Capella.Gen.StylesWF
 
 /-!
 # C18 — SVG output is well-formed, complete and self-contained
@@ -133,6 +133,38 @@ theorem fallback_symbol_undefined_before_repair :
   revert this
   decide +kernel
 
+/-! ### known finding: `symbol` elements of a style class with rectangle-only style attributes
+
+`_draw_symbol` passes the whole object style to a `<use>` element; for the five `Box.*` classes
+whose default style has `rx`/`ry` (e.g. `Class`) svgwrite raises `ValueError("Invalid attribute
+'rx' for svg-element <use>")`, so the combination (symbol, Class) — which the statement's "every
+combination of … element kind and element style class" includes, although Capella never produces
+it — is not rendered at all. Recorded in `known_findings.jsonl`, not repaired. -/
+
+/-- the full claim: every plain element of every kind and table style class can be drawn -/
+def C18_every_combination_draws : Prop :=
+  ∀ (dc : Option (List Char)) (k : Kind) (cls : (List Char)),
+    (∃ e ∈ styleEntries, e.oc = styleType k ++ '.' :: cls) →
+    ∃ d, drawObject tables dc (plainObj k cls) = .ok d
+
+theorem C18_every_combination_draws_fails : ¬ C18_every_combination_draws := by
+  intro h
+  obtain ⟨d, hd⟩ := h (some "Class Diagram Blank".toList) .symbol "Class".toList (by decide +kernel)
+  have : drawObject tables (some "Class Diagram Blank".toList) (plainObj .symbol "Class".toList)
+      = .error .invalidAttribute := by decide +kernel
+  rw [this] at hd
+  cases hd
+
+/-- the excluded inputs, exactly as the model excludes them: the rejection needs a `symbol`
+element drawn with `<use>` whose resolved object style carries `rx` or `ry`; every other kind is
+never rejected this way (partial statement; that all remaining table combinations do draw is
+established by the exhaustive correspondence run, not by proof). -/
+theorem C18_use_rejection_partial (T : Tables) (o : Obj) (p : Prep) (h : useRejects T o p = true) :
+    o.kind = .symbol ∧ ∃ a ∈ p.objStyle.attrs, a.1 = rxKey ∨ a.1 = ryKey := by
+  unfold useRejects at h
+  simp only [Bool.and_eq_true, decide_eq_true_eq, List.any_eq_true, Bool.or_eq_true] at h
+  exact ⟨h.1.1, h.2⟩
+
 /-! ### label text -/
 
 /-- **Wrapping neither drops, adds, splits nor reorders a word** — for every text-extent function,
@@ -156,56 +188,60 @@ theorem wrapped_lines_fit (ext : (List Char) → Rat) (width : Rat) (ws : List (
    by simpa using packW_flatten ext width ws []⟩
 
 /-- **Vertical overflow only truncates and marks**: the rendered lines are a prefix of the given
-lines, or a prefix whose last line `ov` is replaced by `ov ++ "..."` resp. by the first wrap line
-of `ov` (at the width left of the dots) followed by `"..."`. -/
+lines (nothing cut), or a prefix whose last line `ov` is replaced by `ov ++ "..."` resp. by the
+first wrap line of `ov` (at the width left of the dots) followed by `"..."` — a cut is always
+marked. -/
 theorem overflow_shape (sp : Char → Bool) (extW extH : (List Char) → Rat) (lines : List (List Char)) (height maxW : Rat) :
-    vOverflow sp extW extH lines height maxW <+: lines ∨
+    vOverflow sp extW extH lines height maxW = lines ∨
     ∃ (pre : List (List Char)) (ov body : (List Char)),
       vOverflow sp extW extH lines height maxW = pre ++ [body ++ dots] ∧ (pre ++ [ov]) <+: lines ∧
-      (body = ov ∨ body = (wordWrap sp extW (((maxW - extW dots).floor : Int) : Rat) [ov]).headD []) := by
+      (body = ov ∨ body = (wordWrap sp extW (((maxW - extW dots).floor : Int) : Rat)
+        (if ov = [] then [] else [ov])).headD []) := by
   unfold vOverflow
   have hpre := fitLoop_prefix extH height lines 0 none
   cases hf : fitLoop extH height 0 none lines with
   | mk rendered o =>
     rw [hf] at hpre
     cases o with
-    | none => exact .inl hpre
+    | none =>
+      left
+      have hc := fitLoop_complete extH height lines 0 none (by rw [hf])
+      rw [hf] at hc
+      exact hc
     | some ov =>
-      by_cases hov : ov = []
-      · simp only [hov, if_true]; exact .inl hpre
-      · simp only [hov, if_false]
-        right
-        have hshape := fitLoop_overflow extH height lines 0 none ov (by rw [hf])
-        rw [hf] at hshape
-        have hbody : ∀ body', (if extW (ov ++ dots) < maxW then ov ++ dots
-              else (wordWrap sp (fun s => extW s) (((maxW - extW dots).floor : Int) : Rat) [ov]).headD [] ++ dots) = body' →
-            ∃ body, body' = body ++ dots ∧ (body = ov ∨
-              body = (wordWrap sp extW (((maxW - extW dots).floor : Int) : Rat) [ov]).headD []) := by
-          intro body' hb
-          split at hb
-          · exact ⟨ov, hb.symm, .inl rfl⟩
-          · exact ⟨_, hb.symm, .inr rfl⟩
-        obtain ⟨body, hb1, hb2⟩ := hbody _ rfl
-        rcases hshape with ⟨hnil, hovl⟩ | hlast
-        · simp only at hnil hovl
-          subst hnil
-          simp only [if_true]
-          refine ⟨[], ov, body, by simpa using hb1, ?_, hb2⟩
-          cases lines with
-          | nil => simp [fitLoop] at hf
-          | cons l ls => simp at hovl; subst hovl; simp
-        · simp only at hlast
-          have hne : rendered ≠ [] := by intro h; rw [h] at hlast; cases hlast
-          simp only [hne, if_false]
-          refine ⟨rendered.dropLast, ov, body, by rw [hb1], ?_, hb2⟩
-          have : rendered.dropLast ++ [ov] = rendered := by
-            have h1 := List.dropLast_concat_getLast hne
-            have h2 : rendered.getLast hne = ov := by
-              have := List.getLast?_eq_some_getLast hne
-              rw [hlast] at this
-              exact (Option.some.inj this).symm
-            rw [h2] at h1; exact h1
-          rw [this]; exact hpre
+      right
+      have hshape := fitLoop_overflow extH height lines 0 none ov (by rw [hf])
+      rw [hf] at hshape
+      have hbody : ∀ body', (if extW (ov ++ dots) < maxW then ov ++ dots
+            else (wordWrap sp (fun s => extW s) (((maxW - extW dots).floor : Int) : Rat)
+              (if ov = [] then [] else [ov])).headD [] ++ dots) = body' →
+          ∃ body, body' = body ++ dots ∧ (body = ov ∨
+            body = (wordWrap sp extW (((maxW - extW dots).floor : Int) : Rat) (if ov = [] then [] else [ov])).headD []) := by
+        intro body' hb
+        split at hb
+        · exact ⟨ov, hb.symm, .inl rfl⟩
+        · exact ⟨_, hb.symm, .inr rfl⟩
+      obtain ⟨body, hb1, hb2⟩ := hbody _ rfl
+      rcases hshape with ⟨hnil, hovl⟩ | hlast
+      · simp only at hnil hovl
+        subst hnil
+        simp only [if_true]
+        refine ⟨[], ov, body, by simpa using hb1, ?_, hb2⟩
+        cases lines with
+        | nil => simp [fitLoop] at hf
+        | cons l ls => simp at hovl; subst hovl; simp
+      · simp only at hlast
+        have hne : rendered ≠ [] := by intro h; rw [h] at hlast; cases hlast
+        simp only [hne, if_false]
+        refine ⟨rendered.dropLast, ov, body, by rw [hb1], ?_, hb2⟩
+        have : rendered.dropLast ++ [ov] = rendered := by
+          have h1 := List.dropLast_concat_getLast hne
+          have h2 : rendered.getLast hne = ov := by
+            have := List.getLast?_eq_some_getLast hne
+            rw [hlast] at this
+            exact (Option.some.inj this).symm
+          rw [h2] at h1; exact h1
+        rw [this]; exact hpre
 
 /-! ## Non-vacuity -/
 
